@@ -30,6 +30,23 @@ pub fn parse_token_line(l: &str) -> Option<((u32, u32), String)> {
     Some(((a, b), after[..cut].to_string()))
 }
 
+/// digit separators are layout: `1_000` and `1000` are the same text for comparisons
+fn norm_digits(s: &str) -> String {
+    let b: Vec<char> = s.chars().collect();
+    let mut out = String::with_capacity(s.len());
+    for (i, c) in b.iter().enumerate() {
+        if *c == '_' && i > 0 && (b[i - 1].is_ascii_digit() || b[i - 1] == '_') && b[..i].iter().rev().take_while(|x| x.is_ascii_digit() || **x == '_').any(|x| x.is_ascii_digit()) {
+            // part of a digit run only if the run started with a digit
+            let start = b[..i].iter().rposition(|x| !(x.is_ascii_digit() || *x == '_')).map(|p| p + 1).unwrap_or(0);
+            if b[start].is_ascii_digit() {
+                continue;
+            }
+        }
+        out.push(*c);
+    }
+    out
+}
+
 /// token texts without positions; a lexical error is one final entry `Err: <kind and char>`
 pub fn token_texts(dump: &str) -> Vec<String> {
     let mut out = vec![];
@@ -44,7 +61,7 @@ pub fn token_texts(dump: &str) -> Vec<String> {
                         s.replace_range(a + 1..b + 1, "_");
                     }
                 }
-                out.push(s);
+                out.push(norm_digits(&s));
             }
         }
     }
@@ -55,6 +72,7 @@ fn strip_positions(msg: &str) -> (Vec<(u32, u32)>, String) {
     // every `<L>:<C>:` group at the start of a line / after `sd:`
     let mut poss = vec![];
     let mut text = String::new();
+    let msg = &norm_digits(msg);
     for line in msg.lines() {
         let mut l = line;
         let mut prefix = String::new();
@@ -364,6 +382,38 @@ impl Check for C09 {
             self.run_groups(ctx, &groups, 2)?;
         }
         ctx.judge(continuation_cases(), |c, r, o| self.oracle(c, r, o))?;
+        // the plain CLI reads the file itself: variants with carriage returns, tabs and
+        // comments must behave there exactly as in the batch hook (same lexer, parser and
+        // evaluator; only the reading of the file differs)
+        let mut texts: Vec<(String, String)> = vec![];
+        for (name, src) in corp.iter() {
+            if src.len() > 400 {
+                continue;
+            }
+            let eds = edits(src);
+            let mut picked = 0;
+            for e in eds {
+                if e.desc.contains("carriage return") || e.desc.contains("CR") || e.desc.contains("tab") || e.desc.contains("comment") {
+                    picked += 1;
+                    if picked % ctx.tier.pick(7usize, 2usize) == 0 {
+                        texts.push((format!("{} [{}] through the CLI", name, e.desc), e.text));
+                    }
+                }
+            }
+        }
+        let n_cli = texts.len();
+        let batch_cases: Vec<Case> = texts.iter().map(|(d, t)| { let mut c = Case::new(t.clone(), 20, d.clone()); c.no_ref = true; c }).collect();
+        let judged = ctx.judge(batch_cases, |_c, _r, _o| Verdict::Pass)?;
+        let expect: std::collections::HashMap<String, Outcome> = judged.into_iter().map(|j| (j.case.src.clone(), j.o)).collect();
+        let cli_cases: Vec<Case> = texts.iter().map(|(d, t)| { let mut c = Case::new(t.clone(), 21, d.clone()); c.no_ref = true; c.cli_path = Some("case.sd".to_string()); c }).collect();
+        ctx.judge_cli(cli_cases, |c, _r, o| match expect.get(&c.src) {
+            Some(b) => match compare_batch_cli(b, o) {
+                Some(diff) => viol("cli-reads-the-file-differently", format!("{}: {}", c.meta, diff)),
+                None => Verdict::Pass,
+            },
+            None => Verdict::Pass,
+        })?;
+        ctx.extra.insert("cli_layout_variants".into(), json!(n_cli));
         ctx.guard("a line break was placed after every continuation token of the statement", CONTINUATION.iter().all(|c| seen_cont.contains(*c)));
         ctx.extra.insert(
             "bounds".into(),
